@@ -118,6 +118,27 @@ pub mod ber_spec {
         if c.len() == 0 { 0 } else if c[0] < 128 { be_u(c) as int } else { be_u(c) - pow256(c.len()) }
     }
 
+    // ---- well-formed input (the ACCEPTANCE side of the decode contracts: what the standard allows must be accepted).
+    // `i` starts with a complete element whose identifier is the single octet `id` (X.690 §8.1.2.2–8.1.2.3: class,
+    // P/C bit and a tag number 0..30 in one octet — every tag SNMP uses)
+    pub open spec fn starts_with_id(i: Seq<u8>, id: u8) -> bool { spec_header(i) is Some && i[0] == id }
+    // INTEGER that fits the i64 the library hands on (X.690 §8.3: at least one contents octet)
+    pub open spec fn int_acc(i: Seq<u8>) -> bool { starts_with_id(i, 0x02) && 1 <= spec_header(i)->Some_0.length <= 8 }
+    pub open spec fn octets_acc(i: Seq<u8>) -> bool { starts_with_id(i, 0x04) }
+    pub open spec fn seq_acc(i: Seq<u8>) -> bool { starts_with_id(i, 0x30) }
+    // OBJECT IDENTIFIER whose contents are whole sub-identifiers (X.690 §8.19.2)
+    pub open spec fn oid_acc(i: Seq<u8>) -> bool {
+        starts_with_id(i, 0x06) && (spec_content(i).len() == 0 || spec_content(i).last() < 128)
+    }
+
+    // TRUSTED: `==` / `!=` on BerClass is the derived (structural) PartialEq; `!=` is the provided method `ne`, which vstd
+    // specifies through eq_spec / obeys_eq_spec of the implementation
+    pub broadcast proof fn axiom_eq_berclass(a: &BerClass, b: &BerClass)
+        ensures #[trigger] <BerClass as vstd::std_specs::cmp::PartialEqSpec<BerClass>>::eq_spec(a, b) == (*a == *b) { admit(); }
+    pub broadcast proof fn axiom_obeys_berclass()
+        ensures #[trigger] <BerClass as vstd::std_specs::cmp::PartialEqSpec<BerClass>>::obeys_eq_spec() { admit(); }
+    pub broadcast group group_berclass_eq { axiom_eq_berclass, axiom_obeys_berclass }
+
     // a header never describes more than the input holds (X.690 definite form over a finite input)
     pub proof fn lemma_header_bounds(s: Seq<u8>)
         requires spec_header(s) is Some
